@@ -79,6 +79,144 @@ def handle : Handler := fun j => do
             | some v => pairToJson (inv.apply p v f)).toArray)]
     pure (Json.mkObj [("dump", dumpTable m.map), ("noReinstall", dumpTable m.noReinstall),
                       ("applied", Json.arr (fwd.map pairToJson).toArray), ("inverse", invJ)])
+  | "createdeps" =>
+    let deps ← (← jarr j "deps").mapM fun d => do
+      pure ({ name := ← jstr d "name", version := ← jstr d "version", optional := ← jbool d "optional",
+              depth := ← jnat d "depth", found := ← jstrOpt d "found" } : DepReq)
+    match createDepsOrder (← jstr j "top", ← jstr j "topVersion") deps with
+    | none => pure (Json.mkObj [("error", "ProductNotFound")])
+    | some l => pure (Json.mkObj [("order", Json.arr (l.map fun (n, v, o) => Json.arr #[ofStr n, ofStr v, Json.bool o]).toArray)])
+  | "srvfile" =>
+    -- {server: [[path, content]..], reqs: [[path, dest]..], pinned}
+    let pair := fun (f : Json) => do
+      match (← f.getArr?).toList with
+      | [a, b] => pure (Str.ofString (← a.getStr?), Str.ofString (← b.getStr?))
+      | _ => throw "pair expected"
+    let srv ← (← jarr j "server").mapM pair
+    let reqs ← (← jarr j "reqs").mapM pair
+    let ans := getFiles (← jbool j "pinned") srv {} reqs
+    pure (Json.mkObj [("answers", Json.arr (ans.map fun a => match a with
+      | .content t => Json.mkObj [("content", ofStr t)]
+      | .notFound => Json.mkObj [("error", "notfound")]
+      | .sameFile => Json.mkObj [("error", "samefile")]).toArray)])
+  | "manseq" =>
+    -- a sequence of operations on one live Manifest object
+    let mut m : Manifest := { product := ← jstrOpt j "product", version := ← jstrOpt j "version", deps := [] }
+    let mut mb : Manifest := { product := some (Str.ofString "other"), version := some (Str.ofString "9.9"), deps := [] }
+    let mut out : Array Json := #[]
+    let native ← jstr j "native"
+    let dump := fun (m : Manifest) => Json.mkObj [("product", ofStrOpt m.product), ("version", ofStrOpt m.version),
+                                                  ("deps", Json.arr (m.deps.map depToJson).toArray)]
+    for o in (← jarr j "ops") do
+      let k ← (← o.getObjVal? "op").getStr?
+      if k == "add" then
+        m := { m with deps := m.deps ++ [← depOfJson (← o.getObjVal? "dep")] }
+        out := out.push (dump m)
+      else if k == "reverse" then
+        m := m.reverse
+        out := out.push (dump m)
+      else if k == "roll" then
+        m := m.roll (← jint o "n")
+        out := out.push (dump m)
+      else if k == "getdep" then
+        let r := m.getDependency (← jstr o "product") (← jstrOpt o "version") (← jstrOpt o "flavor") (← jint o "which")
+        out := out.push (match r with | none => Json.null | some d => depToJson d)
+      else if k == "roundtrip" then
+        let wo : WriteOpts := { noOptional := ← jbool o "noOptional", flavor := ← jstrOpt o "flavor", native := native }
+        let text := write wo [] m
+        let into := (← (← o.getObjVal? "into").getStr?)
+        let sp ← jbool o "setproduct"
+        let reader : Manifest := if into == "live" then m else if into == "B" then mb
+          else { product := none, version := none, deps := [] }
+        match reader.readInto sp false text with
+        | .error e => out := out.push (Json.mkObj [("error", errName e)])
+        | .ok r =>
+          let written := dump m
+          if into == "live" then m := r
+          if into == "B" then mb := r
+          out := out.push (Json.mkObj [("written", written), ("before", dump reader), ("read", dump r)])
+      else throw s!"manseq: unknown op {k}"
+    pure (Json.mkObj [("out", Json.arr out)])
+  | "tagseq" =>
+    -- a sequence of operations on two live TaggedProductList objects A and B
+    let mut ta := TagList.empty (← jstr j "tag") (← jstrOpt j "flavorA")
+    let mut tb := TagList.empty (← jstr j "tag") (← jstrOpt j "flavorB")
+    let mut out : Array Json := #[]
+    let rows := fun (t : TagList) => Json.arr (t.getProducts.map ofStrs).toArray
+    for o in (← jarr j "ops") do
+      let k ← (← o.getObjVal? "op").getStr?
+      let onA := (← (← o.getObjVal? "on").getStr?) == "A"
+      if k == "add" then
+        let f := fun (t : TagList) (p v : Str) (fl : Option Str) (ex : List Str) => t.addProduct p v fl ex
+        let p ← jstr o "product"; let v ← jstr o "version"; let fl ← jstrOpt o "flavor"; let ex ← jstrs o "extra"
+        if onA then ta := f ta p v fl ex else tb := f tb p v fl ex
+        out := out.push Json.null
+      else if k == "delete" then
+        let p ← jstr o "product"
+        if onA then ta := ta.deleteProduct p else tb := tb.deleteProduct p
+        out := out.push Json.null
+      else if k == "merge" then
+        let before := rows ta
+        ta := ta.mergeProductList tb
+        out := out.push (Json.mkObj [("before", before), ("other", rows tb), ("after", rows ta)])
+      else if k == "get" then
+        if (← jbool o "sort") then
+          if onA then ta := ta.sortInPlace else tb := tb.sortInPlace
+        out := out.push (rows (if onA then ta else tb))
+      else if k == "info" then
+        let t := if onA then ta else tb
+        let i : Json := match t.getProductInfo (← jstr o "product") with
+          | none => Json.arr #[Json.null, Json.null]
+          | some i => ofStrs i
+        out := out.push (Json.mkObj [("info", i), ("rows", rows t)])
+      else if k == "roundtrip" then
+        let text := ta.write (← jstrOpt o "writeFlavor") []
+        let into := (← (← o.getObjVal? "into").getStr?)
+        let before := rows tb
+        let tagS ← jstr j "tag"
+        let rf ← jstrOpt o "readFlavor"
+        let reader := if into == "B" then tb else TagList.empty tagS rf
+        match reader.read text with
+        | .error e => out := out.push (Json.mkObj [("written", rows ta), ("error", errName e)])
+        | .ok r =>
+          if into == "B" then tb := r
+          out := out.push (Json.mkObj [("written", rows ta), ("before", before), ("read", rows r)])
+      else throw s!"tagseq: unknown op {k}"
+    pure (Json.mkObj [("out", Json.arr out)])
+  | "mapseq" =>
+    -- a sequence of operations on ONE live Mapping: add / merge (a fresh mapping built from `adds`) / inverse / apply
+    let mut m : Mapping := {}
+    let mut out : Array Json := #[]
+    for o in (← jarr j "ops") do
+      let k ← (← o.getObjVal? "op").getStr?
+      if k == "add" then
+        m := m.add (← jstr o "inP") (← jstr o "inV") (← jstrOpt o "outP") (← jstrOpt o "outV") (← jstr o "flavor")
+          (← jbool o "overwrite")
+        out := out.push Json.null
+      else if k == "merge" then
+        let before := dumpTable m.map
+        m := m.merge (← mappingOf (← jarr o "adds")) (← jbool o "overwrite")
+        out := out.push (Json.mkObj [("before", before), ("after", dumpTable m.map)])
+      else if k == "apply" then
+        match (← jarr o "q") with
+        | [p, v, f] => out := out.push (pairToJson (m.apply (Str.ofString (← p.getStr?)) (Str.ofString (← v.getStr?))
+                                                       (Str.ofString (← f.getStr?))))
+        | _ => throw "apply: q = [product, version, flavor]"
+      else if k == "inverse" then
+        let rows := m.map.flatMap fun (f, byP) => byP.flatMap fun (p, byV) => byV.map fun (v, _) => (f, p, v)
+        let invJ : Json := match m.inverse with
+          | none => Json.str "RuntimeError"
+          | some inv =>
+            Json.mkObj [("dump", dumpTable inv.map),
+              ("checks", Json.arr (rows.map fun (f, p, v) =>
+                let r := m.apply p v f
+                Json.arr #[ofStr f, ofStr p, ofStr v, pairToJson r,
+                           match r.2 with
+                           | none => Json.null
+                           | some w => pairToJson (inv.apply r.1 w f)]).toArray)]
+        out := out.push (Json.mkObj [("dump", dumpTable m.map), ("inverse", invJ)])
+      else throw s!"mapseq: unknown op {k}"
+    pure (Json.mkObj [("out", Json.arr out)])
   | "remap" =>
     let m0 ← mappingOf (← jarr j "adds")
     let files ← (← jarr j "files").mapM fun f => do (← f.getArr?).toList.mapM fun l => do pure (Str.ofString (← l.getStr?))
@@ -89,8 +227,10 @@ def handle : Handler := fun j => do
     | some fromFiles =>
       let m := m0.merge fromFiles false
       let deps ← (← jarr j "deps").mapM depOfJson
+      let known := (jstrs j "known").toOption.getD []
       pure (Json.mkObj [("deps", Json.arr ((remapDeps m (← jstr j "flavor") deps).map depToJson).toArray),
-                        ("dump", dumpTable m.map)])
+                        ("dump", dumpTable m.map),
+                        ("declared", ofStrs (dummyDeclares m (← jstr j "flavor") known deps))])
   | "server" =>
     -- {files: [[tag, text]..], reqs: [{op: list|info|tagsfor, tag, flavor|null, product, version}], byTagOnly}
     let files ← (← jarr j "files").mapM fun f => do
